@@ -149,12 +149,12 @@ def interruptions(obs):
     out = []
     for (old, new), (n, step, nd, *_rw) in zip(obs.trans, obs.trans_meta):
         if new in ("pausing", "suspending"):
-            out.append((new, n, step, section_at(obs, n)))
+            out.append((new, n, step, section_at(obs, n), bool(_rw[1]) if len(_rw) > 1 else False))
         elif new == "aborting" and old == "running":
             # either an abort request, or a pause/suspension that found no checkpoint (FailedPause)
             aborts = [r for r in obs.reqs if r["kind"] == "abort" and r["out"][0] == "ret" and r["step"] <= step]
             if not aborts:
-                out.append(("failed", n, step, section_at(obs, n)))
+                out.append(("failed", n, step, section_at(obs, n), bool(_rw[1]) if len(_rw) > 1 else False))
     return out
 
 
@@ -167,7 +167,7 @@ def terminal_cause(obs):
     for c in obs.calls:
         if c["api"] in ("abort", "stop", "halt") and c["outcome"] == "ret":
             ev.append((c["steps"], 1, c["api"], c))
-    for kind, n, step, section in interruptions(obs):
+    for kind, n, step, section, _inflight in interruptions(obs):
         if section in ("cleared", "none"):
             ev.append((step, 0, "failed-pause", dict(kind=kind, nmsgs=n, step=step)))
     ev.sort(key=lambda x: (x[0], x[1]))
@@ -188,9 +188,9 @@ def c08_interrupted(obs, case=None):
                 if cause is None:
                     ints = interruptions(obs)
                     pe = obs.plan_end
-                    if pe is not None and pe[0] == "return" and all(n >= pe[3] for _, n, _, _ in ints):
+                    if pe is not None and pe[0] == "return" and all(x[1] >= pe[3] for x in ints):
                         tags.append("RunEngineInterrupted-but-idle:pause-landed-after-plan-completed")
-                    elif any(sec == "checkpointed" for _, _, _, sec in ints) and any(m.command == "clear_checkpoint" for m in obs.msgs):
+                    elif any(x[3] == "checkpointed" for x in ints) and any(m.command == "clear_checkpoint" for m in obs.msgs):
                         tags.append("RunEngineInterrupted-but-idle:checkpoint-after-clear_checkpoint-did-not-restore-resumability")
                     else:
                         tags.append("RunEngineInterrupted-but-idle-without-termination")
